@@ -171,6 +171,11 @@ def decide(prop, tier='quick', seed=0, units=None, jobs=8, quiet=False):
             reach_vacuous.append('%s: vacuity guard could not run (%s)' % (os.path.basename(u), note))
     for v in reach_vacuous:
         undecided.append('vacuity guard: contradictory or unchecked preconditions: ' + v)
+    all_known = [k for k in load_known() if k.get('status', 'known') == 'known' and k.get('obligation_match')]
+    def unit_status(r_):
+        if r_.status == 'failed' and all(any(re.search(k['obligation_match'], fl.oid) for k in all_known) for fl in r_.failures):
+            return 'ok+known-findings'
+        return r_.status
     n_failed = len(violations)
     rc = 0
     lines = []
@@ -254,7 +259,7 @@ def decide(prop, tier='quick', seed=0, units=None, jobs=8, quiet=False):
             back_end='Verus %s / Z3' % (results[0].verus.get('version', '?') if results else '?'),
             solver_ms_total=smt_ms,
             extraction_rules_applied=rules,
-            units=[dict(unit=r.unit, status=r.status, reason=r.reason, generated_sha256=r.gen_sha, wall_s=round(r.wall_s, 2), verified_functions=getattr(r, 'verified_count', None)) for r in results],
+            units=[dict(unit=r.unit, status=unit_status(r), reason=r.reason, generated_sha256=r.gen_sha, wall_s=round(r.wall_s, 2), verified_functions=getattr(r, 'verified_count', None)) for r in results],
             known_findings_hit=[dict(id=k['id'], obligation=fl.oid, what=k['what']) for _r, fl, k in known_hits],
             vacuity_guard=dict(rule='for every function under contract with preconditions, a twin with the same signature and preconditions and body `assert(false)` must FAIL to verify', twins_checked=reach_checked, vacuous=reach_vacuous),
             samples=samples or [dict(note='no tagged ensures clause; see functions_under_contract')],
@@ -271,7 +276,7 @@ def decide(prop, tier='quick', seed=0, units=None, jobs=8, quiet=False):
         print(l)
     if not quiet:
         print('%s: %d obligations in %d functions, %d failed, %d known finding(s), units %s, %.1fs' % (
-            prop, n_obl, len(fn_list), len(seen), len(kseen), ','.join('%s=%s' % (r.unit, r.status) for r in results), wall))
+            prop, n_obl, len(fn_list), len(seen), len(kseen), ','.join('%s=%s' % (r.unit, unit_status(r)) for r in results), wall))
     return rc
 
 
